@@ -15,6 +15,7 @@ import Homonim.Model.Stats
 import Homonim.Model.Bands
 import Homonim.Model.FS
 import Homonim.Model.Sched
+import Homonim.Model.Cli
 open Homonim
 
 def ints (ts : List String) : Option (List Int) := ts.mapM String.toInt?
@@ -276,6 +277,31 @@ def handleSched (toks : List String) : String :=
     | _, _, _, _, _ => "bad-args"
   | _ => "bad-args"
 
+/-- merge P <key=val@d|c>... C <key=val>...   (val `~` = None)  →  merged `key=val@src ...` or `reject` -/
+def handleMerge (toks : List String) : String :=
+  match toks with
+  | "P" :: rest =>
+    let pT := rest.takeWhile (· ≠ "C")
+    let cT := (rest.dropWhile (· ≠ "C")).drop 1
+    let params : Option (List (String × PVal String)) := pT.mapM fun t =>
+      match t.splitOn "=" with
+      | [k, vs] => match vs.splitOn "@" with
+        | [v, src] => some (k, ⟨if v = "~" then none else some v, if src = "c" then .commandline else .default⟩)
+        | _ => none
+      | _ => none
+    let conf : Option (List (String × String)) := cT.mapM fun t =>
+      match t.splitOn "=" with
+      | [k, v] => some (k, v)
+      | _ => none
+    match params, conf with
+    | some ps, some cf =>
+      match mergeAll ps cf with
+      | none => "reject"
+      | some m => " ".intercalate (m.map fun p =>
+          s!"{p.1}={p.2.val.getD "~"}@{match p.2.src with | .default => "d" | .commandline => "c"}")
+    | _, _ => "bad-args"
+  | _ => "bad-args"
+
 def handle (toks : List String) : String :=
   match toks with
   | "blocks1" :: rest =>
@@ -351,6 +377,28 @@ def handle (toks : List String) : String :=
       s!"{if r.1.northUp then 1 else 0} {r.1.crs} {if r.2.northUp then 1 else 0} {r.2.crs}"
     | _ => "bad-args"
   | "fit" :: rest => handleFit rest
+  | "merge" :: rest => handleMerge rest
+  | ["procres", sa, ra, req] =>
+    match sa.toInt?, ra.toInt? with
+    | some sa, some ra =>
+      let rq : ProcCrs := if req = "src" then .src else if req = "ref" then .ref else .auto
+      (match resolveProcCrs sa ra rq with | .auto => "auto" | .src => "src" | .ref => "ref")
+    | _, _ => "bad-args"
+  -- cprofile <cfgDriver> I <k=v>... C <k=v>...  → merged profile, sorted by key
+  | "cprofile" :: drv :: "I" :: rest =>
+    let iT := rest.takeWhile (· ≠ "C")
+    let cT := (rest.dropWhile (· ≠ "C")).drop 1
+    let kv (ts : List String) : Option (List (String × String)) := ts.mapM fun t =>
+      match t.splitOn "=" with | [k, v] => some (k, v) | _ => none
+    match kv iT, kv cT with
+    | some ip, some cf =>
+      let m := combineProfiles ip drv cf
+      " ".intercalate ((m.map fun e => s!"{e.1}={e.2}").toArray.qsort (· < ·)).toList
+    | _, _ => "bad-args"
+  | ["postfix", pc, m, kh, kw, ext] =>
+    match kh.toNat?, kw.toNat? with
+    | some kh, some kw => outPostfix pc m kh kw ext
+    | _, _ => "bad-args"
   | "sched" :: rest => handleSched rest
   | "fshist" :: _ => handleFs toks
   | "match" :: rest => handleMatch rest
